@@ -198,6 +198,17 @@ def rule_metric_init(repo, rep):
         if isinstance(e_, ast.Constant) and isinstance(e_.value, str):
           accepted.add(e_.value)
   extra = sorted(accepted - {'identity', 'covariance', 'random'})
+  # is the pseudo-inverse helper the documented one (interpretive rule)?
+  from . import c20b
+  from ..report import Report
+  pinv_f = repo.get_func('_util._pseudo_inverse_from_eig')
+  tmp = Report(rep.pid)
+  try:
+    c20b.rule_pinv_spectrum(repo, tmp)
+    pinv_ok = bool(tmp.obs) and all(o['status'] == 'derived'
+                                    for o in tmp.obs)
+  except Exception:
+    pinv_ok = False
   for opt in ('identity', 'covariance', 'random', '<array>', 'bogus') + \
           tuple(extra):
     for inp_name, inp in (('points', rows), ('tuples', tups)):
@@ -206,6 +217,19 @@ def rule_metric_init(repo, rep):
           Poly.ORTHO.clear()
           dom = AlgDomain()
           eng = Engine(repo, dom)
+          if pinv_ok and pinv_f is not None:
+            # `_pseudo_inverse_from_eig(w, V)` is V Diag(1 / w) V^T on the
+            # retained part of the spectrum: decided on the function itself
+            # by R-INTERP:pinv-from-eig (c20b), so its spelling (in place
+            # with where= / out=, or out of place with a masked store) does
+            # not matter here
+            def _pinv_sum(a, k, eng=eng):
+              from ..engine import State
+              expr = ast.parse('np.dot(V__ * (1 / w__), V__.T)',
+                               mode='eval').body
+              return eng.eval(expr, State({'w__': a[0], 'V__': a[1]},
+                                          eng.dom.aux_init()), pinv_f)
+            dom.summaries[pinv_f.key] = _pinv_sum
           initv = cv(opt) if opt != '<array>' else V(
               Poly.sym('init', 'mat', symmetric=True), ty='ndarray')
           facts = {('@attr', 'input', 'ndim'): V(
